@@ -159,10 +159,11 @@ ApiOutcomes(d, x1, x2) == {o \in ApiCands(d, x1, x2) : ApiOk(d, x1, x2, o)}
 \* validates what it is given ("value must not have blank lines").  A result of the statement
 \* always passes; the blank line the keepends defect leaves behind does not: the defect then
 \* shows as a ValueError out of the one-argument form (self unchanged).
+HasBlank(s) == \E i \in 1..Len(s) : s[i] = 0
 M1Ok(d, x1, x2, o) ==
-   IF /\ "keepends" \in d /\ x1.t = "ml" /\ x2.t = "ml"
-      /\ \E i \in 1..Len(MlKeep(x1.it, x2.it)) : MlKeep(x1.it, x2.it)[i] = 0
-   THEN o = MfValueError
+   IF "keepends" \in d /\ x1.t = "ml" /\ x2.t = "ml"
+   THEN LET m == MlKeep(x1.it, x2.it)
+        IN IF HasBlank(m) THEN o = MfValueError ELSE o = MfVal(MfV("ml", "nl", m))
    ELSE ApiOk(d, x1, x2, o)
 M1Outcomes(d, x1, x2) == {o \in ApiCands(d, x1, x2) : M1Ok(d, x1, x2, o)}
 
